@@ -618,6 +618,7 @@ class SimStream(object):
         self.strict_epipe = True
         self.fault_fired = None
         self.on_write = None
+        self.yield_on_write = False
 
     # -- contract
     @property
@@ -686,6 +687,10 @@ class SimStream(object):
             raise EOFError("stream has been closed")
         if self.k.aborting:
             return                      # teardown: writes never block, so they are simply dropped
+        if self.yield_on_write:
+            self.k.yield_point(("write", self.name))
+            if self._closed:
+                raise EOFError("stream has been closed")
         n = len(data)
         if self.record_ops:
             self.ops.append(("write", n))
